@@ -72,4 +72,31 @@ theorem destination_sites_cover_slice_map_pointer :
     ("reconstructFuncOfOptional", "reflect.New", "value.Set(reflect.New(value.Type().Elem()))") ∈ destinationSetSites := by
   decide
 
+/-! ### the leaves: `Type.AssignValue` (type*.go)
+
+The reconstruction functions above end in `typ.AssignValue(value, column[0])` (`reconstructFuncOfLeaf`),
+where the leaf type of the READER'S schema meets whatever Go kind the destination field has ([]byte for
+a FIXED_LEN_BYTE_ARRAY leaf when the schema is handed over explicitly). A destination slice that is
+refilled in place when its capacity suffices (the change of seed C16-5a) overwrites the bytes of the
+row the caller kept from the previous `Read` into the same batch. -/
+
+/-- every `dst.SetBytes(x)` of an `AssignValue` method is given a fresh copy of the bytes -/
+theorem assign_value_sets_fresh_bytes :
+    ∀ s ∈ assignValueSetBytesSites, s.2 = "copyBytes" := by decide
+
+/-- no `AssignValue` method looks at or resizes the memory its destination already has: a slice
+    destination is never refilled in place -/
+theorem assign_value_never_reuses_destination : assignValueReuseSites = [] := by decide
+
+/-- the two byte-slice cells (BYTE_ARRAY and FIXED_LEN_BYTE_ARRAY leaves) are among the sites -/
+theorem assign_value_sites_cover_both_byte_leaves :
+    ("byteArrayType.AssignValue", "copyBytes") ∈ assignValueSetBytesSites ∧
+    ("fixedLenByteArrayType.AssignValue", "copyBytes") ∈ assignValueSetBytesSites ∧
+    assignValueMethods ≥ 20 := by decide
+
+/-- the slip of seed C16-5a on the extracted shape: a method with `SetLen` / `Bytes` on its destination
+    is refused by the fact -/
+example : [("fixedLenByteArrayType.AssignValue", "Cap"), ("fixedLenByteArrayType.AssignValue", "SetLen"),
+           ("fixedLenByteArrayType.AssignValue", "Bytes")] ≠ ([] : List (String × String)) := by decide
+
 end PqModel.Props.FactsCheckC16
